@@ -92,6 +92,7 @@ def copysign (f : Fmt) (a b : Nat) : Nat :=
 
 /-! quire: exact accumulation -/
 inductive QOp | addProd (a b : Nat) | subProd (a b : Nat) | addOne (a : Nat) | subOne (a : Nat) | neg | clear
+  | load (bits : Nat)   -- `Q::from_bits`: the accumulator is set to an arbitrary two's-complement image
 
 structure QFmt where
   p : Fmt
@@ -109,6 +110,10 @@ def qStep (qf : QFmt) (s : Option Rat) : QOp → Option Rat
   | .subProd a b => match s, toRat qf.p a, toRat qf.p b with | some s, some x, some y => some (s - x * y) | _, _, _ => none
   | .addOne a => match s, toRat qf.p a with | some s, some x => some (s + x) | _, _ => none
   | .subOne a => match s, toRat qf.p a with | some s, some x => some (s - x) | _, _ => none
+  | .load b =>
+    let b := b % 2 ^ qf.w
+    if b == 2 ^ (qf.w - 1) then none
+    else some (((if b < 2 ^ (qf.w - 1) then (b : Int) else (b : Int) - (2 ^ qf.w : Nat)) : Int) / ((2 ^ qf.fb : Nat) : Rat))
 
 def qInRange (qf : QFmt) (s : Option Rat) : Bool :=
   match s with
